@@ -116,12 +116,17 @@ impl Clone for TransitionCycle {
 //@item solution/src/schedule.rs Schedule::tour_of : trusted
 //@retname r
 //@sig
-    ensures self.tours@.contains_key(vehicle) ==> r is Ok && *r->Ok_0 == self.tours@[vehicle],
+    ensures
+        self.tours@.contains_key(vehicle) ==> r is Ok && *r->Ok_0 == self.tours@[vehicle],
+        !self.tours@.contains_key(vehicle) && self.dummy_tours@.contains_key(vehicle) ==> r is Ok && *r->Ok_0 == self.dummy_tours@[vehicle],
+        !self.tours@.contains_key(vehicle) && !self.dummy_tours@.contains_key(vehicle) ==> r is Err,
 //@end
 //@item solution/src/schedule.rs Schedule::vehicle_type_of : trusted
 //@retname r
 //@sig
-    ensures self.vehicles@.contains_key(vehicle) ==> r == Ok::<VehicleTypeIdx, String>(self.type_of(vehicle)),
+    ensures
+        self.vehicles@.contains_key(vehicle) ==> r == Ok::<VehicleTypeIdx, String>(self.type_of(vehicle)),
+        !self.vehicles@.contains_key(vehicle) ==> r is Err,
 //@end
 // the depot bookkeeping and the rotation-cycle update are not under contract here: nothing is known
 // about the maps they modify (they get `tours` by shared reference)
